@@ -249,7 +249,7 @@ def run(run):
     quick = run.tier == "quick"
     BATCH_TIMEOUT[0] = 100 if quick else 1500
     shards = 4 if quick else max(4, C.NPROC // 2)
-    plan = [("compfail", run.scaled(48) if quick else 1500), ("slowsub", 2 if quick else 12),
+    plan = [("compfail", run.scaled(48) if quick else 1500), ("slowsub", 2 if quick else 12), ("slowlive", 2 if quick else 30),
             ("raw", run.scaled(500) if quick else 5000), ("composite", run.scaled(230) if quick else 3000),
             ("http", run.scaled(28) if quick else 450), ("cluster", run.scaled(14) if quick else 260)]   # scaled: anchor drift
     if quick and run.escalate > 1:
